@@ -190,8 +190,11 @@ pub fn get_solidity_version_from_source_unit(source_unit: SourceUnit) -> Option<
                 continue;
             }
 
+            //The parser keeps comments inside the text of a pragma value, they do not name the version
+            let solidity_version_value = strip_comments(&solidity_version_literal.string);
+
             let major_minor_patch_version =
-                get_solidity_major_minor_patch_version(&solidity_version_literal.string)
+                get_solidity_major_minor_patch_version(&solidity_version_value)
                     .iter()
                     .map(|f| f.parse::<i32>())
                     .collect::<Result<Vec<i32>, _>>();
@@ -205,6 +208,17 @@ pub fn get_solidity_version_from_source_unit(source_unit: SourceUnit) -> Option<
     }
 
     None
+}
+
+//Replaces every `/* .. */` and `// ..` comment by a space
+pub fn strip_comments(text: &str) -> String {
+    let block_comment_re = Regex::new(r"(?s)/\*.*?\*/").unwrap();
+    let line_comment_re = Regex::new(r"//[^\n]*").unwrap();
+
+    let without_block_comments = block_comment_re.replace_all(text, " ");
+    line_comment_re
+        .replace_all(&without_block_comments, " ")
+        .to_string()
 }
 
 pub fn get_solidity_major_version(solidity_version_str: &str) -> i32 {
